@@ -385,19 +385,13 @@ bool StepExtended(ScriptExecutionEnvironment& env, CScript::const_iterator& pc, 
         return true;
 
     case OP_2MUL:
+    case OP_2DIV:
         // (in -- out)
         if (stack.size() < 1) return set_error(serror, SCRIPT_ERR_INVALID_STACK_OPERATION);
-        vch1 = stacktop(-1);
         {
-            // multiply by 2 = left-shift one bit
-            uint16_t carry = 0;
-            for (size_t i = 0; i < vch1.size(); ++i) {
-                uint16_t v = vch1[i];
-                v = (v << 1) | carry;
-                carry = v >> 8;
-                vch1[i] = v & 0xff;
-            }
-            if (carry) vch1.push_back(carry);
+            // operands of up to 5 bytes keep the result inside int64; division truncates towards zero
+            const CScriptNum num(stacktop(-1), env.fRequireMinimal, 5);
+            vch1 = (env.opcode == OP_2MUL ? num + num : num / CScriptNum(2)).getvch();
         }
         popstack(stack);
         pushstack(stack, vch1);
